@@ -119,6 +119,8 @@ def r2_constructor(R) -> None:
             return ('A',)
         if is_call(e, 'copy.deepcopy', 'copy.copy', 'dict') and len(e.args) == 1 and text(e.args[0]) in ('self.ALIASES', 'type(self).ALIASES', 'self.__class__.ALIASES'):
             return ('init',)
+        if text(e) in ('self.ALIASES', 'type(self).ALIASES', 'self.__class__.ALIASES'):
+            return ('init',)  # whether the class-level object may be kept uncopied is C11.R3's question
         if isinstance(e, ast.DictComp) and len(e.generators) == 1:
             g = e.generators[0]
             kv = [x.id for x in ast.walk(g.target) if isinstance(x, ast.Name)]
